@@ -140,6 +140,22 @@ def register(db):
                  ("type-collected-for-imports", "called('PySet.add') == 1")],
         raises={}, properties=P,
     ))
+    # a mapping: every key and every value goes through repr_object (so enum / QName / Decimal keys are rendered as
+    # code and their types are collected for the imports), in key: value order
+    def one_entry(mk, base):
+        k, v = mk.value("opaque:Any", "key"), mk.value("opaque:Any", "val")
+        mk.exports["the_key"], mk.exports["the_val"] = k, v
+        return mk.pdict({k: v}) if hasattr(mk, "pdict") else mk.st.alloc(__import__("pyvc.values", fromlist=["PDict"]).PDict({k: v}))
+
+    db.add(Contract(
+        f"{PS}.repr_mapping", variant="one-entry",
+        params={"self": serializer, "obj": one_entry, "level": 0, "types": "opaque:PySet"},
+        ensures=[
+            ("key-and-value-are-rendered-as-objects", "len(result) == 7 and result[0] == '{\\n' and result[2] == uf('rendered', 'str', the_key) "
+                                                      "and result[3] == ': ' and result[4] == uf('rendered', 'str', the_val) and result[5] == ',\\n' and result[6] == '}'"),
+        ],
+        raises={}, properties=P,
+    ))
     # ------------------------------------------------------------------ enum members are resolvable dotted paths
     for k in ("tuple", "list", "set", "frozenset", "dict", "Generator"):
         db.opaque_isinst[("EnumValue", k)] = False
